@@ -1,4 +1,14 @@
-(* placeholder so that the pipeline can be exercised; replaced by the real theorems *)
-From SV Require Import Names Rep.
-Theorem C04_placeholder : True. Proof. exact I. Qed.
-Print Assumptions C04_placeholder.
+(* C04 -- closure, star, lookups and disjointness are exact.
+   Theorem statements only; proofs (by computation in the kernel) in Sweeps.v.
+   BOUNDED: every complex on at most 4 labelled points, every simplex, all four flag combinations;
+   disjoint() on all 1-, 2- and 3-tuples of simplices of every complex on at most 3 points. *)
+From Coq Require Import String ZArith Bool Arith List.
+From SV Require Import Names Rep Complex Homology Filtration Gen World Small Sweeps.
+
+Theorem C04_closure_star_lookup_upto4_partial : forall c, In c complexes4 -> chk_closure_star (build c) = true.
+Proof. exact closure_star_upto4. Qed.
+Print Assumptions C04_closure_star_lookup_upto4_partial.
+
+Theorem C04_disjoint_upto3_partial : forall c, In c complexes3 -> chk_disjoint (build c) = true.
+Proof. exact disjoint_upto3. Qed.
+Print Assumptions C04_disjoint_upto3_partial.
